@@ -13,7 +13,8 @@ import (
 
 // C11Case is a formula tree.
 type C11Case struct {
-	F *ref.F `json:"f"`
+	F   *ref.F `json:"f"`
+	Dup bool   `json:"dup,omitempty"` // a group lists a variable twice: judged by the library's own Eval
 }
 
 var c11Counts = map[string]int{"quick": 60_000, "thorough": 1_500_000}
@@ -52,8 +53,13 @@ func hasNegUniq(f *ref.F, neg bool, minSize int) bool {
 func c11Run(ci interface{}, rec *Rec) {
 	c := ci.(*C11Case)
 	vars := c.F.Vars()
-	sat := c.F.HasModel()
+	eval := treeEval(c.F, c.Dup)
+	sat := hasModelBy(vars, eval)
 	scen := "bf.Solve"
+	if c.Dup {
+		scen = "bf.Solve/group-with-repeated-variable"
+		rec.Count("formulas_with_repeated_variable_in_group", 1)
+	}
 	if hasNegUniq(c.F, false, 5) {
 		rec.Count("with_negated_big_group", 1)
 	}
@@ -89,7 +95,7 @@ func c11Run(ci interface{}, rec *Rec) {
 			for i, v := range missing {
 				m[v] = a>>uint(i)&1 == 1
 			}
-			if !c.F.Eval(m) {
+			if !eval(m) {
 				rec.Viol(scen, "bad-model", "Model", "returned %v completed with %v falsifies %s", model, ref.AssignOf(missing, a), c.F)
 				break
 			}
@@ -122,7 +128,7 @@ func init() {
 		Setup:    func(string) { InstallSeqHooks() },
 		Rule: "random formula trees of depth <= 5 over 1..9 variables built with Var, True, False, Not, n-ary And / Or (0..4 operands, so empty ones occur), Implies, Eq, Xor and Unique groups of size 0..9 (pairwise encoding up to 4, grid encoding with auxiliary variables from 5) at positive and negative polarity; bf.Solve is judged by evaluating the tree under all assignments: nil iff unsatisfiable, otherwise every completion of the returned assignment satisfies the tree. " +
 			"non-trivial = tree with >= 4 nodes over >= 2 variables; distinct by tree",
-		Assumptions: []string{"reference formula evaluator of internal/ref (standard semantics; empty conjunction true, empty disjunction false, exactly-one of no variable false)", "exactly-one groups list distinct variables"},
+		Assumptions: []string{"reference formula evaluator of internal/ref (standard semantics; empty conjunction true, empty disjunction false, exactly-one of no variable false)", "exactly-one groups list distinct variables, except in 1 case out of 10 where a group lists a variable twice and the formula is judged by the library's own Eval (self-consistency), since the meaning of such a group is not documented"},
 		Floors: map[string]map[string]int64{
 			"quick":    {"nil_answers": 2000, "model_answers": 20000},
 			"thorough": {"nil_answers": 50000, "model_answers": 500000},
@@ -134,6 +140,9 @@ func c11Gen(r *gen.Rng, tier string, idx int) interface{} {
 	c := c11GenPlain(r, tier, idx).(*C11Case)
 	if r.Chance(1, 8) { // variable names that look like the translation's own auxiliary names
 		gen.RenameAdversarial(r, c.F)
+	}
+	if r.Chance(1, 10) {
+		c.Dup = gen.DuplicateInGroup(r, c.F)
 	}
 	return c
 }
